@@ -233,7 +233,8 @@ def _q_routes():
         "str": (lambda w: w, lambda w: ("query", w, "qs")),
         "dictkey": (lambda w: {w: "v"}, lambda w: ("query_pairs", [(w, "v")], "form")),
         "dictval": (lambda w: {"k": w}, lambda w: ("query_pairs", [("k", w)], "form")),
-        "dictlist": (lambda w: {"k": [w, "2"], w: (w,)}, lambda w: ("query_pairs", [("k", w), ("k", "2"), (w, w)], "form")),
+        "dictlist": (lambda w: {"k": [w, "2"], w: (w,)},
+                     lambda w: ("query_pairs", [("k", w), ("k", "2"), (w, w)] if w != "k" else [("k", "k")], "form")),
         "list": (lambda w: [(w, w)], lambda w: ("query_pairs", [(w, w)], "form")),
         "tuple": (lambda w: ((w, "1"), ("k", w)), lambda w: ("query_pairs", [(w, "1"), ("k", w)], "form")),
         "multidict": (lambda w: MultiDict([(w, "1"), (w, w)]), lambda w: ("query_pairs", [(w, "1"), (w, w)], "form")),
@@ -254,7 +255,8 @@ def _q_routes():
 _q_routes()
 
 
-@route("mod_operator", "query", lambda w: ([("query_pairs", [(w, w)], "form")], {"has_authority": True, "op": "update_query"}))
+@route("mod_operator", "query", lambda w: ([("query_pairs", [(w, w)], "form")],
+                                         {"has_authority": True, "op": "update_query", "existing": [(b"a", b"1")]}))
 def _(w):
     return impl.URL("http://h.com/p?a=1") % {w: w}
 
